@@ -275,6 +275,12 @@ def focus_for(prop):
             'C16': stream_downloads}.get(prop)
 
 
+def _in_cleanup(f):
+    """fault sites that the failure cleanups of a transfer reach (abort of the multipart upload, closing the
+    destination file): a non-Exception raised there escapes announce_done itself"""
+    return f.get('op') == 'abort_multipart_upload' or (f.get('site') == 'fs' and f.get('op') == 'close')
+
+
 def fixed_scenarios(prop, rng):
     """Scenario classes whose detection must not rest on the luck of the random generator: they run first in
     every exploration (the schedule seeds still vary with VERIF_SEED)."""
@@ -316,13 +322,25 @@ def fixed_scenarios(prop, rng):
         for nth in (0, 1):
             for when in ('before', 'after'):
                 for mode in ('stall', 'uniform', 'sticky'):
-                    t = up(13) if kind == 'upload' else {'kind': 'copy', 'size': 13, 'subscribers': [{'id': 0, 'reentrant': []}]}
+                    t = up(8) if kind == 'upload' else {'kind': 'copy', 'size': 13, 'subscribers': [{'id': 0, 'reentrant': []}]}
                     sc = base([t], max_request_concurrency=2)
                     sc['faults'] = [{'site': 'req', 'op': op, 'nth': nth, 'when': when, 'exc_kind': 'base'}]
                     sc['mode'] = mode
                     if mode == 'stall':
-                        sc['stall'] = {'class': 'req-end', 'nth': rng.choice([1, 2, 3]), 'len': rng.choice([100, 400])}
+                        # the end of the first part request (req-end 0 is the create call's) is slow: that part is
+                        # still on the wire when the faulted one dies and the rest of the queue drains
+                        # (req-end 0 is the create call's; a copy asks for the source's size first)
+                        sc['stall'] = {'class': 'req-end', 'nth': 1 if kind == 'upload' else 2, 'len': 400}
                     out.append(sc)
+        # the variant that needs the dying part to come *before* the one on the wire in the list of parts the
+        # complete task resolves: part 0 dies after its request took effect while part 1 is held at its end
+        for rep in range(8):
+            t = up(8) if kind == 'upload' else {'kind': 'copy', 'size': 13, 'subscribers': [{'id': 0, 'reentrant': []}]}
+            sc = base([t], max_request_concurrency=2 + rep % 2)
+            sc['faults'] = [{'site': 'req', 'op': op, 'nth': 0, 'when': 'after', 'exc_kind': 'base'}]
+            sc['mode'] = 'stall'
+            sc['stall'] = {'class': 'req-end', 'nth': 1 if kind == 'upload' else 2, 'len': 400}
+            out.append(sc)
     return out
 
 
@@ -344,12 +362,13 @@ def _worker(args):
             pass
         elif rng.random() < SERIAL_SHARE.get(prop, 0.12):
             explore.make_serial(sc, rng)
-        elif [f for f in sc['faults'] if f.get('op') != 'abort_multipart_upload'] and rng.random() < 0.08:
+        elif [f for f in sc['faults'] if not _in_cleanup(f)] and rng.random() < 0.08:
             # a BaseException that is not an Exception (SystemExit from a callback, an interrupt re-raised by a
             # wrapper) inside a task of a worker thread: the pool keeps it on the task's future
             # (not inside a failure cleanup: a non-Exception raised by the abort call itself escapes announce_done
             #  before the done event is set — outside what the properties quantify over, noted in DESIGN.md)
-            f = rng.choice([f for f in sc['faults'] if f.get('op') != 'abort_multipart_upload'])
+            # the same holds for closing the destination file, which is what a download's failure cleanup does
+            f = rng.choice([f for f in sc['faults'] if not _in_cleanup(f)])
             if f['site'] == 'body':
                 f['kind'] = 'base'
             else:
